@@ -170,9 +170,8 @@ def run(ctx):
     # ---- R6 direction: the documented transform is a rotation to the LEFT
     rot_direction(ctx, M, fp, a)
 
-    if ctx.tier == "thorough":
-        from .. import interval
-        interval.rotation_obligations(ctx, "C15.R5")
+    from .. import interval
+    interval.rotation_obligations(ctx, "C15.R5")
 
     # positive control: same-direction rotation on both sides must be reported by the 'not identical' obligation
     ctx.control("C15.R2", a_neg != a)
